@@ -168,6 +168,18 @@ class FixedList(P):
         return [p.concrete(m, x, ctx) for p, x in zip(self.elems, sym.items)]
 
 
+class EmptySet(P):
+    """an initially empty set; modelled by the list of elements added (membership and `add` only)"""
+
+    def make(self, I, name):
+        l = SList([], fresh_obj=False)
+        l.is_set = True
+        return l
+
+    def concrete(self, m, sym, ctx):
+        return set()
+
+
 class EnumConst(P):
     """a fixed member of a repository enum"""
 
@@ -283,16 +295,61 @@ class ContractReport:
 Z3_FIRST_MS: int | None = None  # when set (string-heavy contracts): z3 gets only this long before cvc5 is asked
 
 
+def _z3_check_guarded(s: z3.Solver, budget_ms: int) -> str:
+    """check-sat in a forked child under a hard wall-clock limit. z3's own `timeout` is honoured almost always, but a
+    string/quantifier query was once seen spinning for 30 minutes on a saturated machine; a child that does not answer
+    within budget + 5 s is killed and the query counts as `unknown` (never as a verdict). 10 ms per query."""
+    import os
+    import select
+    import signal
+
+    if os.environ.get("PYVC_NO_FORK"):
+        return str(s.check())
+    rfd, wfd = os.pipe()
+    pid = os.fork()
+    if pid == 0:
+        code = 0
+        try:
+            os.close(rfd)
+            try:
+                res = str(s.check())
+            except BaseException:  # noqa: BLE001
+                res = "unknown"
+            os.write(wfd, res.encode())
+        finally:
+            os._exit(code)
+    os.close(wfd)
+    res = "unknown"
+    try:
+        ready, _, _ = select.select([rfd], [], [], budget_ms / 1000 + 5)
+        if ready:
+            got = os.read(rfd, 16).decode()
+            if got in ("sat", "unsat", "unknown"):
+                res = got
+        else:
+            os.kill(pid, signal.SIGKILL)
+    finally:
+        os.close(rfd)
+        try:
+            os.waitpid(pid, 0)
+        except ChildProcessError:
+            pass
+    return res
+
+
 def _solve(assertions: list, timeout_ms: int) -> tuple[str, Any, str]:
     """returns (sat|unsat|unknown, model, backend)"""
     s = z3.Solver()
-    s.set("timeout", min(timeout_ms, Z3_FIRST_MS) if Z3_FIRST_MS else timeout_ms)
+    budget = min(timeout_ms, Z3_FIRST_MS) if Z3_FIRST_MS else timeout_ms
+    s.set("timeout", budget)
     s.add(*assertions)
-    r = s.check()
-    if r == z3.unsat:
+    r = _z3_check_guarded(s, budget)
+    if r == "unsat":
         return "unsat", None, "z3"
-    if r == z3.sat:
-        return "sat", s.model(), "z3"
+    if r == "sat":
+        # the model is needed in this process: the child has just shown the query to be quickly satisfiable
+        if s.check() == z3.sat:
+            return "sat", s.model(), "z3"
     # second opinion: cvc5 through SMT-LIB
     try:
         import subprocess
@@ -532,11 +589,12 @@ def _elem(c, I, name, r, m, be, t1, sym, a, p, post, replay, raised=None, exc_ex
             # contract on the real function is a real failing input.
             for hint in c.replay_hints:
                 try:
-                    f2, t2 = replay_concrete(c, dict(hint), post, None)
+                    hv = hint() if callable(hint) else dict(hint)  # callable hints build fresh (mutable) arguments per use
+                    f2, t2 = replay_concrete(c, dict(hv), post, None)
                 except Exception:  # noqa: BLE001
                     continue
                 if f2:
-                    failed, text, e.model_args = True, t2 + " (concrete hint; the solver's own model " + text[:120] + ")", {k: _short(v) for k, v in hint.items()}
+                    failed, text, e.model_args = True, t2 + " (concrete hint; the solver's own model " + text[:120] + ")", {k: _short(v) for k, v in hv.items()}
                     break
         e.replay_failed, e.replay_text = failed, text
     except Exception as ex:  # noqa: BLE001
@@ -544,7 +602,17 @@ def _elem(c, I, name, r, m, be, t1, sym, a, p, post, replay, raised=None, exc_ex
     return e
 
 
+def _describe(v: Any) -> str:
+    """repr, except for token-list holders (Parser): their token list is what identifies the input"""
+    toks = getattr(v, "tokens", None)
+    if isinstance(toks, list) and toks and hasattr(toks[0], "type"):
+        return f"{type(v).__name__}(tokens={[(t.type.name, t.value) + ((t.raw,) if getattr(t, 'raw', None) is not None else ()) for t in toks[:8]]}, pos={getattr(v, 'pos', None)})"
+    return repr(v)
+
+
 def _short(v: Any) -> Any:
+    if hasattr(v, "tokens"):
+        return _describe(v)
     try:
         import json
 
@@ -603,4 +671,4 @@ def replay_concrete(c: FunctionContract, conc: dict[str, Any], post: Callable | 
 
 
 def _short_args(conc: dict) -> str:
-    return ", ".join(f"{k}={v!r}"[:160] for k, v in conc.items() if k != "self") + (f", self={conc['self']!r}"[:200] if "self" in conc else "")
+    return ", ".join(f"{k}={v!r}"[:160] for k, v in conc.items() if k != "self") + (f", self={_describe(conc['self'])}"[:300] if "self" in conc else "")
